@@ -1,6 +1,7 @@
 package main
 
 import (
+	"os"
 	"fmt"
 	"go/token"
 	"go/types"
@@ -699,6 +700,9 @@ func (x *Exec) atomicOp(st *State, fn *ssa.Function, args []SVal, pos token.Pos,
 	}
 	key := args[0].Loc
 	short := x.shortName(key)
+	if os.Getenv("ROVC_DEBUG") != "" {
+		fmt.Fprintf(os.Stderr, "ATOMIC-OP %s key=%s hook=%v\n", name, key, x.H.AtomicWrite != nil)
+	}
 	var vt types.Type
 	if fn.Signature.Recv() == nil && fn.Signature.Params().Len() > 0 {
 		if pt, ok := fn.Signature.Params().At(0).Type().Underlying().(*types.Pointer); ok {
